@@ -154,6 +154,14 @@ func init() {
 		// buffer-batch
 		if f := p.Func("db", "BufferBatch", "Flush"); f != nil {
 			put, del := findSite(f, "Put"), findSite(f, "Delete")
+			if put == nil || del == nil {
+				// the replay may sit in a same-package method Flush delegates to
+				for _, h := range samePkgScope(f, 2) {
+					if pp, dl := findSite(h, "Put"), findSite(h, "Delete"); pp != nil && dl != nil {
+						put, del = pp, dl
+					}
+				}
+			}
 			ok := put != nil && del != nil
 			if ok {
 				dd := p.mustHoldAt(del.Instr)
@@ -407,6 +415,10 @@ func c15PebbleBatch(c *Ctx) {
 		nw := 0
 		for _, fn := range p.sortedFuncs() {
 			if pkgRelOf(fn) != pkg || fn.Signature.Recv() == nil || recvName(fn.Signature.Recv().Type()) != "batch" || len(fn.Blocks) == 0 {
+				continue
+			}
+			// a method that only Write calls is a part of Write (Write split into Write + commitAndClose)
+			if fn.Name() != "Write" && p.calledOnlyFromAny(fn, map[string]bool{"Write": true}, 0) {
 				continue
 			}
 			reach := p.Reachable([]*ssa.Function{fn}, func(caller, callee *ssa.Function) bool { return pkgRelOf(callee) != pkg })
